@@ -296,7 +296,7 @@ func c04Exec(c *fw.Ctx, cell c04Cell) {
 		return
 	}
 	if cell.SRP == "B-leading-zero" {
-		if len(s.B) == 384 {
+		if len(s.B) == 384 && s.B[0] != 0 { // (a B that is sent padded to the group's length counts by its value)
 			c.Note("B-leading-zero cell: steering crypto/rand.Reader did not produce a short B (cell not exercised)")
 			c.Eval(-1)
 			return
